@@ -65,10 +65,22 @@ def stream_for(rng, d, length=None, regime=None):
     reg, xs = gen_stream(rng, L, regime, positive=needs_positive(d), grid=(1 if heavy else rng.choice([4, 4, 10, 2])))
     return reg, xs
 
+# views whose exact runs stay cheap for long streams and large windows (no coefficient growth)
+LARGE_OK = {"Sma", "Cumulative", "Min", "Max", "Roc", "Welford", "WelfordMean", "WelfordVar", "Vst", "Vsct", "Hln", "Entropy", "Cog", "Cti", "Net",
+            "Rsi", "MyRsi", "Alma", "Ema", "WRolling", "WRollingMean", "Drawdown", "LnReturn", "Gte", "Lte"}
+
 def standalone_cases(rng, names, count, length=None, nmax=12):
     cases = []
     for i in range(count):
         name = names[i % len(names)]
+        if name in LARGE_OK and length is None and (i // len(names)) % 6 == 5:
+            # every sixth pass: a large window and a stream long enough to wrap it several times
+            n = 20 + rng.below(21)
+            d = mk_view(rng, name, n=n)
+            L = (90 + rng.below(70)) if name not in ("Net", "Cti", "Alma") else 70
+            reg, xs = gen_stream(rng, L, positive=needs_positive(d), grid=rng.choice([4, 2, 10]))
+            cases.append(Case.simple(d, xs, {"regime": reg + "/large-window", "view": name}))
+            continue
         d = mk_view(rng, name)
         reg, xs = stream_for(rng, d, length)
         cases.append(Case.simple(d, xs, {"regime": reg, "view": name}))
